@@ -13,6 +13,9 @@ CasesFor(ch) ==
     [] ch.k = "reject" -> {[op |-> "reject", base |-> ch.base, a |-> ch.a, b |-> b, why |-> w, sub |-> s] :
                              b \in {Rect(0, 0, 2, 2), Rect(1, -1, 3, 2)},
                              w \in {"subpixel", "pixelsize", "orientation", "crs", "nocrs"}, s \in {<<1, 0>>, <<0, 4>>, <<2, 3>>, <<0, -1>>, <<-4, 4>>}}
+    \* every invertible relative linear map with entries in halves up to 2 (mirrors, rotations, shears, anisotropic scales), not the identity
+    [] ch.k = "rejectlin" -> {[op |-> "reject", base |-> ch.base, a |-> ch.a, b |-> Rect(1, -1, 3, 2), why |-> "linear", sub |-> s, m |-> m] :
+                             m \in {x \in LinMaps : ~SameGrid(x, <<0, 0>>)}, s \in {<<0, 0>>}}
     [] ch.k = "snap" -> {[op |-> "snap", base |-> ch.base, a |-> ch.a, b |-> b, sub |-> <<px, py>>] :
                            b \in {Rect(0, 0, 2, 2), Rect(2, -1, 3, 2)}, px \in {-8, -7, -3, 0, 1, 5, 8}, py \in {-8, -5, 0, 2, 7}}
     \* enclosing: region edges in quarter pixels of the base grid, never on a pixel edge; same / other (exact-translation) CRS
@@ -23,7 +26,7 @@ CasesFor(ch) ==
 
 Chunks == UNION { {[op |-> "chunk", k |-> "pair", base |-> bs, a |-> a] : bs \in Bases, a \in Rects(-Lo, Hi, Sizes)},
                   {[op |-> "chunk", k |-> "triple", base |-> bs, a |-> a] : bs \in {"northup", "pythag"}, a \in Rects(TLo, THi, TSizes)},
-                  {[op |-> "chunk", k |-> kk, base |-> bs, a |-> a] : kk \in {"reject", "snap", "enclosing"}, bs \in Bases, a \in {Rect(0, 0, 3, 2), Rect(-1, 2, 2, 3)}},
+                  {[op |-> "chunk", k |-> kk, base |-> bs, a |-> a] : kk \in {"reject", "rejectlin", "snap", "enclosing"}, bs \in Bases, a \in {Rect(0, 0, 3, 2), Rect(-1, 2, 2, 3)}},
                   {[op |-> "chunk", k |-> "bbox", p |-> p] : p \in BBoxes} }
 VARIABLE c
 Init == c \in Chunks
